@@ -3039,8 +3039,11 @@ compute_two_tree_branch_stat(const tsk_treeseq_t *ts, const iter_state *l_state,
     while (n_updates != 0) {
         n_updates--;
         c = updated_nodes[n_updates];
-        compute_two_tree_branch_state_update(
+        ret = compute_two_tree_branch_state_update(
             ts, c, l_state, r_state, state_dim, result_dim, -1, f, f_params, result);
+        if (ret != 0) {
+            goto out;
+        }
     }
     // Remove samples under nodes from removed edges to parent nodes
     for (j = 0; j < r_state->n_edges_out; j++) {
@@ -3084,8 +3087,11 @@ compute_two_tree_branch_stat(const tsk_treeseq_t *ts, const iter_state *l_state,
     while (n_updates != 0) {
         n_updates--;
         c = updated_nodes[n_updates];
-        compute_two_tree_branch_state_update(
+        ret = compute_two_tree_branch_state_update(
             ts, c, l_state, r_state, state_dim, result_dim, +1, f, f_params, result);
+        if (ret != 0) {
+            goto out;
+        }
     }
 out:
     tsk_safe_free(updated_nodes);
@@ -10304,7 +10310,10 @@ tsk_matvec_calculator_run(tsk_matvec_calculator_t *self)
         self->position = next_position;
         if (self->position == windows[m + 1]) {
             out = GET_2D_ROW(self->result, out_size, m);
-            tsk_matvec_calculator_write_output(self, out);
+            ret = tsk_matvec_calculator_write_output(self, out);
+            if (ret != 0) {
+                goto out;
+            }
             if (self->options & TSK_STAT_SPAN_NORMALISE) {
                 span = windows[m + 1] - windows[m];
                 for (i = 0; i < out_size; i++) {
@@ -10318,7 +10327,7 @@ tsk_matvec_calculator_run(tsk_matvec_calculator_t *self)
         }
     }
 
-    /* out: */
+out:
     return ret;
 }
 
